@@ -230,25 +230,30 @@ def independence_under_rule_options(ctx, reg):
                 out.setdefault(v.rule_code(), []).append((v.line_no, v.line_pos, v.desc()))
         return {k: sorted(v) for k, v in out.items()}
 
+    nscen = [0]
+
     def lint(configs, rules, sql, parsed=None):
-        """Linter.lint_string under `configs` (+ rule selection). Quick tier only: the runs of one scenario differ in rule selection / rule
-        options alone, which parsing cannot see, so the single-rule runs reuse the parse of the all-rules run and go through the same three
-        public steps lint_string is made of (parse_string, get_rulepack, lint_parsed); the thorough tier always calls lint_string."""
+        """Linter.lint_string under `configs` (+ rule selection). In 5 scenarios out of 6 (thorough: 2 of 3) the runs of one scenario differ in rule
+        selection / rule options alone, which parsing cannot see, so they share one parse and go through the same three public steps
+        lint_string is made of (parse_string, get_rulepack, lint_parsed); every 6th scenario (thorough: every 3rd) calls lint_string throughout."""
         ov = {"rules": rules} if rules else {}
         cfg = FluffConfig(configs=copy.deepcopy(configs), overrides=ov)
         lnt = Linter(config=cfg)
+        if rules is None:
+            nscen[0] += 1
+            parsed = None
+            if nscen[0] % (6 if quick else 3):
+                try:
+                    parsed = lnt.parse_string(sql)
+                except (AttributeError, TypeError):
+                    parsed = None
         if parsed is not None:
             try:
                 pack = lnt.get_rulepack(config=cfg)
                 return by_rule(lnt.lint_parsed(parsed._replace(config=cfg), pack, fix=False).violations), parsed
             except (AttributeError, TypeError):
                 ctx.count("independence-shared-parse-unavailable")
-        if quick and parsed is None and rules is None:
-            try:
-                parsed = lnt.parse_string(sql)
-            except (AttributeError, TypeError):
-                parsed = None
-        return by_rule(lnt.lint_string(sql).violations), parsed
+        return by_rule(lnt.lint_string(sql).violations), None
 
     for k in sorted(table):
         owners = table[k]
@@ -263,7 +268,7 @@ def independence_under_rule_options(ctx, reg):
         if quick:
             ansi = ansi[: max(3, len(ansi) // 2)]
         rng.shuffle(ansi)
-        items = ansi[: (1 if quick else 3)]
+        items = ansi[: (1 if quick else 2)]
         if not items:
             # no yaml case sets this option: first non-default value of the validation range, on the owner's failing cases
             for (code, ref, dflt, val) in owners:
